@@ -36,6 +36,8 @@ structure Unpaced (s0 : State) (t N : Nat) (f0 : FileDesc) : Prop where
   pub : s0.cfg.mode = .full → f0.published = true
   start : ∀ st, f0.info.startTime = some st → st ≤ N
   all : ∀ k g, getF s0.objs k = some g → wantsTick g = false
+  /-- no source fails (buffer sources) -/
+  nofault : FaultFree s0
 
 theorem read_step_total (cfg : Cfg) (tbl : List Nat) (hsorted : (cfg.queues.map (fun x => x.1)).Pairwise (fun a b => a < b))
     (s0 : State) (t N : Nat) (f0 : FileDesc) (hu : Unpaced s0 t N f0) (hprio : f0.prio ∈ cfg.queues.map (fun x => x.1))
@@ -83,6 +85,9 @@ theorem read_step_total (cfg : Cfg) (tbl : List Nat) (hsorted : (cfg.queues.map 
           (Or.inr (by unfold gapElapsed; rw [d.carousel, hu.car]))
           (fun hmode => d.pub (hu.pub (by rw [← hm.cfg]; exact hmode)))
           (fun st hst => hu.start st (by rw [← d.start]; exact hst))
+          (fun k g hg => by
+            obtain ⟨g0, hg0, dg⟩ := hm.bwd k g hg
+            rw [dg.faults]; exact hu.nofault k g0 hg0)
           q hq1 (by rw [hq2.1, hp1, d.prio]) 0 q.slots[0] (by simp [hlen])
         rw [hgate c.key g hg] at hb; cases hb
       · exact htr
